@@ -227,6 +227,20 @@ def rule_size(ck, rf, hm, consts):
         succ_true = [s for s, k in dec.cfg.successors(t) if k == "true"]
         ok = bool(succ_true) and all(s.kind == "stmt" and isinstance(s.ast, ast.Raise) and "_DecompressTooLargeError" in q.unparse(s.ast) for s in succ_true)
         ck.ob(R, dec, t.ast, ok, "leftover compressed input after max_length bytes raises _DecompressTooLargeError (the result is never returned truncated)")
+    # the leftover test guards every return of an inflated result
+    rets = dec.cfg.stmt_nodes(lambda n: n.kind == "stmt" and isinstance(n.ast, ast.Return) and n.ast.value is not None)
+    for rn in rets:
+        cut = {(t.id, "false") for t in tails}
+        seen_ids = {dec.cfg.entry.id}
+        stack = [dec.cfg.entry.id]
+        while stack:
+            x = stack.pop()
+            for y, k in dec.cfg.succ[x]:
+                if (x, k) in cut or y in seen_ids:
+                    continue
+                seen_ids.add(y)
+                stack.append(y)
+        ck.ob(R, dec, rn.ast, bool(tails) and rn.id not in seen_ids, "the inflated result is returned only after unconsumed_tail was found empty (on every path, whatever the context-takeover mode)")
     crt = ck.func(W, P13 + "._create_compressors")
     dcs = q.find_calls(crt.node, "_PerMessageDeflateDecompressor")
     ck.floor(R, len(dcs), 1, "_PerMessageDeflateDecompressor constructions")
@@ -456,7 +470,7 @@ def rule_abort_stops(ck, rf, hm, loop, consts):
 
 def run(ck):
     ck.rule("C15.abort-table", "every RFC 6455 / permessage-deflate header violation (reserved bits, RSV1 on control/continuation frames, control frames >125 bytes or fragmented, continuation without start, data frame inside a fragmented message, unknown opcode) ends in _abort() with nothing dispatched or buffered, for every concrete header byte of the class")
-    ck.rule("C15.size-limit", "messages above max_message_size are aborted before their payload is read (accumulated over fragments, limit itself accepted); the inflater is bounded by the same limit and overflow becomes an abort")
+    ck.rule("C15.size-limit", "messages above max_message_size are aborted before their payload is read: the compared quantity is the decoded frame length plus the buffered *bytes* (units resolved through every assignment/mutation of the buffer field and evaluated on concrete buffer models), limit itself accepted; the inflater is bounded by the same limit on every path and overflow becomes an abort")
     ck.rule("C15.utf8", "a text message is delivered only as the strict UTF-8 decoding of its payload; a decoding error aborts without delivery")
     ck.rule("C15.abort-stops", "_abort sets both terminated flags and closes the stream; once terminated the dispatcher does nothing and the loop stops; nothing follows _abort() in the parser; callback errors abort")
     ck.rule("C15.exc-abort", "every operation of the receive call tree that peer bytes can make raise (inflate, UTF-8 decoding, struct.unpack) is under a handler that aborts the connection, within _handle_message/_receive_frame/_receive_frame_loop")
@@ -576,6 +590,7 @@ def _buffer_as_chunk_list(root):
 MUTANTS = [
     ("seeded C15-adv1: buffer becomes a list of chunks, limit still adds len(buffer) (fragments, not bytes)", _in(P13 + "._receive_frame", _buffer_as_chunk_list), "C15.size-limit"),
     ("limit applied to the 7-bit length code (check moved before the extended length is decoded)", _in(P13 + "._receive_frame", _limit_before_decode), "C15.size-limit"),
+    ("inflate overflow only detected with context takeover", _in("_PerMessageDeflateDecompressor.decompress", replace_expr(lambda n: isinstance(n, ast.Attribute) and n.attr == "unconsumed_tail", lambda n: parse_expr("(self._decompressor is not None and decompressor.unconsumed_tail)"))), "C15.size-limit"),
     ("size check adds the number of frames seen instead of the buffered bytes", _in(P13 + "._receive_frame", replace_expr(lambda n: q.is_call(n, "len") and "_fragmented_message_buffer" in _src(n), lambda n: parse_expr("len([self._fragmented_message_buffer])"))), "C15.size-limit"),
     ("size check assigns instead of accumulating (new_len = len(buffer))", _in(P13 + "._receive_frame", replace_stmt(lambda st: isinstance(st, ast.AugAssign) and "new_len" in _src(st.target), lambda st: [ast.Assign(targets=[ast.Name(id="new_len", ctx=ast.Store())], value=st.value)])), "C15.size-limit"),
     ("undo the G5-1/G5-2 repair: the broad handler of the receive loop removed", _in(P13 + "._receive_frame_loop", _drop_handler("Exception")), "C15.exc-abort"),
